@@ -170,6 +170,7 @@ func cmdCheck(args []string) int {
 	dump := fs.String("dump", "", "directory to dump all queries into")
 	only := fs.String("only", "", "regexp: only obligations whose name matches")
 	verbose := fs.Bool("v", false, "verbose")
+	noSolve := fs.Bool("nosolve", false, "with --dump: write the queries and stop")
 	fs.Parse(args)
 	start := time.Now()
 	seed := 0
@@ -310,9 +311,15 @@ func cmdCheck(args []string) int {
 			os.WriteFile(filepath.Join(*dump, fmt.Sprintf("%03d-%s.smt2", i, sanitize(it.o.Name))), []byte("; "+it.o.Name+"\n; "+it.o.Src+"\n"+it.vc.queryText(it.o, true)), 0o644)
 		}
 	}
-	timeout := 10000
+	if *noSolve {
+		fmt.Printf("%d queries written to %s\n", len(items), *dump)
+		return 0
+	}
+	// nominal effort per obligation in milliseconds on an idle machine; the
+	// z3 solvers get it as a deterministic resource limit (solve.go)
+	timeout := 20000
 	if *tier == "thorough" {
-		timeout = 60000
+		timeout = 120000
 	}
 	for _, vc := range vcs {
 		vc.slicer() // built once, before the parallel phase
@@ -360,7 +367,7 @@ func cmdCheck(args []string) int {
 			nDis++
 			bySolver[o.Solver]++
 			if len(samples) < 12 {
-				samples = append(samples, map[string]interface{}{"obligation": o.Name, "kind": o.Kind, "clause": o.Src, "solver": o.Solver, "ms": o.Ms})
+				samples = append(samples, map[string]interface{}{"obligation": o.Name, "kind": o.Kind, "clause": o.Src, "solver": o.Solver, "ms": o.Ms, "rlimit": o.Rlimit})
 			}
 			continue
 		}
@@ -375,7 +382,7 @@ func cmdCheck(args []string) int {
 	}
 	if *verbose {
 		for _, it := range items {
-			fmt.Fprintf(os.Stderr, "%-16s %6dms %-8s %s\n", it.o.Status, it.o.Ms, it.o.Solver, it.o.Name)
+			fmt.Fprintf(os.Stderr, "%-16s %6dms %10d %-8s %s\n", it.o.Status, it.o.Ms, it.o.Rlimit, it.o.Solver, it.o.Name)
 		}
 		for _, vc := range vcs {
 			for _, w := range vc.warnings {
